@@ -56,7 +56,7 @@ def lsq(gv, ih):
 class C06(object):
     id = "C06"
     engine = "simomp"
-    tiers = {"quick": {"runs": 12000, "budget_s": 60, "selftest_every": 50, "fresh_selftest": 10},
+    tiers = {"quick": {"runs": 24000, "budget_s": 60, "selftest_every": 50, "fresh_selftest": 10},
              "thorough": {"runs": 2500000, "budget_s": 800, "selftest_every": 400, "fresh_selftest": 20}}
     rule = ("one run = (kernel score|score_and_refine|refine_assigned, UBI good or poor, 0..20000 peaks from integer "
             "hkl up to |h|~1000 + noise mixed with random vectors, tolerance, label selection incl. empty/coplanar) "
